@@ -77,7 +77,7 @@ def clsOfField (E : Enums) (f : FieldD) : Cls :=
   else .other
 
 /-- `cls._betterproto.cls_by_field[field_name]` (KeyError for a name that is not a field) -/
-def clsByField (S : Schema) (E : Enums) (c : Nat) (name : List Char) : Res Cls :=
+def fdClsByField (S : Schema) (E : Enums) (c : Nat) (name : List Char) : Res Cls :=
   match findName (fieldsOf S c) name 0 with
   | some (_, f) => .ok (clsOfField E f)
   | Option.none => .raise .key
@@ -99,10 +99,10 @@ def clsByFieldMapValue (S : Schema) (E : Enums) (c : Nat) (name : List Char) : R
   | Option.none => .raise .key
 
 /-- `sub_cls == datetime`, `sub_cls == timedelta` (identity of class objects) -/
-def clsIsDatetime : Cls → Bool
+def fdClsIsDatetime : Cls → Bool
   | .datetime => true
   | _ => false
-def clsIsTimedelta : Cls → Bool
+def fdClsIsTimedelta : Cls → Bool
   | .timedelta => true
   | _ => false
 
